@@ -114,6 +114,14 @@ class _LazyArr(object):
     def __getitem__(self, i):
         return self.f(i)
 
+    def __eq__(self, other):
+        # compared with the content of a list: equal on every index of that list (lengths are stated separately)
+        if isinstance(other, (list, tuple)):
+            return all(self.f(i) == other[i] for i in range(len(other)))
+        return NotImplemented
+
+    __hash__ = None
+
 
 def mkarray(f):
     return _LazyArr(f)
